@@ -134,7 +134,8 @@ func (vc *VC) builtinCopy(st *State, dst, src Val, rt types.Type) Val {
 			srcAt = sel(srcArr, app("bvadd", src.L[1], app("bvsub", q, dst.L[1])))
 		}
 		inr := and(app("bvsle", dst.L[1], q), app("bvslt", q, app("bvadd", dst.L[1], n)))
-		vc.assume("true", fmt.Sprintf("(forall ((%s %s)) (! (= (select %s %s) %s) :pattern ((select %s %s))))", q, sBV64, na, q, ite(inr, srcAt, sel(old, q)), na, q))
+		vc.assume("true", fmt.Sprintf("(forall ((%s %s)) (! (and (= (select %s %s) %s) %s) :pattern ((select %s %s))))", q, sBV64, na, q,
+			ite(inr, srcAt, sel(old, q)), rangeEquiv(q, dst.L[1], n), na, q))
 		vc.setHeap(st, hn, hs, sto(h, dst.L[0], na))
 	}
 	return Val{T: rt, L: []string{n}}
@@ -352,7 +353,67 @@ func (vc *VC) applyContract(fr *Frame, st *State, c *Contract, call *ssa.CallCom
 		}
 		vc.assume(st.cond, vc.specBool(post, cl.Expr))
 	}
+	vc.applyGassigns(c, post, st)
 	return tupleOf(rt, results)
+}
+
+// applyGassigns executes the ghost assignments of a contract (ghost code that
+// runs at normal return): G(k0[, k1]) := v when cond.  k1 may be govcStar (the
+// whole row of k0).
+func (vc *VC) applyGassigns(c *Contract, env *SpecEnv, st *State) {
+	for _, cl := range c.Clauses {
+		if cl.Raw.Kind != "gassign" {
+			continue
+		}
+		call, ok := cl.GTarget.(*ast.CallExpr)
+		if !ok {
+			panic(outsideSubset{"gassign: target is not a ghost function application"})
+		}
+		var fobj *types.Func
+		if id, ok := call.Fun.(*ast.Ident); ok {
+			fobj, _ = c.Pkg.TypesInfo.Uses[id].(*types.Func)
+		}
+		g, ok := vc.w.Ghosts[fobj]
+		if !ok || vc.w.GhostConst[g] || len(call.Args) == 0 || len(call.Args) > 2 {
+			panic(outsideSubset{"gassign: target must be a (non-const) ghost function of one or two keys"})
+		}
+		func() {
+			defer func() {
+				if r := recover(); r != nil {
+					if se, ok := r.(specErr); ok {
+						panic(outsideSubset{"gassign: " + se.msg})
+					}
+					panic(r)
+				}
+			}()
+			env.st = st
+			cond := env.boolTerm(cl.GCond)
+			val := env.eval(cl.GValue)
+			rs := layoutOf(fobj.Type().(*types.Signature).Results().At(0).Type()).Leaves[0].Sort
+			k0 := ghostKey(env.eval(call.Args[0]))
+			hn := ghostHeapName(g)
+			if len(call.Args) == 1 {
+				hs := arrSort(sBV64, rs)
+				vc.ghostSorts[hn] = hs
+				h := vc.heapTerm(st, hn, hs)
+				vc.setHeap(st, hn, hs, sto(h, k0, ite(cond, val.L[0], sel(h, k0))))
+				return
+			}
+			hs := arrSort(sBV64, arrSort(sBV64, rs))
+			vc.ghostSorts[hn] = hs
+			h := vc.heapTerm(st, hn, hs)
+			row := sel(h, k0)
+			var nrow string
+			if id, ok := call.Args[1].(*ast.Ident); ok && id.Name == "govcStar" {
+				nrow = constArr(arrSort(sBV64, rs), val.L[0])
+			} else {
+				k1v := env.eval(call.Args[1])
+				k1 := bvExtend(k1v.L[0], widthOf(k1v.T), 64, isSigned(k1v.T))
+				nrow = sto(row, k1, val.L[0])
+			}
+			vc.setHeap(st, hn, hs, sto(h, k0, ite(cond, nrow, row)))
+		}()
+	}
 }
 
 func (vc *VC) trustedNote(c *Contract) {
@@ -563,6 +624,9 @@ func (vc *VC) evalLoc(e *SpecEnv, x ast.Expr, whole bool) (res []locTarget) {
 			}
 			a := e.eval(x.Args[0])
 			rs := layoutOf(fobj.Type().(*types.Signature).Results().At(0).Type()).Leaves[0].Sort
+			if len(x.Args) == 2 {
+				rs = arrSort(sBV64, rs) // the whole row of the object
+			}
 			vc.ghostSorts[ghostHeapName(g)] = arrSort(sBV64, rs)
 			return []locTarget{{name: ghostHeapName(g), key: ghostKey(a), sort: arrSort(sBV64, rs)}}
 		}
@@ -695,12 +759,19 @@ func (vc *VC) havocTargets(st *State, ts []locTarget) {
 			continue
 		}
 		h := vc.heapTerm(st, n, srt)
-		f := vc.freshConst("hv", srt)
+		vs := valueSortOf(srt)
+		doneKey := map[string]bool{}
 		for _, t := range byName[n] {
+			if doneKey[t.key+"|"+t.cond] {
+				continue
+			}
+			doneKey[t.key+"|"+t.cond] = true
+			// a fresh constant per cell (not a read of a fresh array): solvers eliminate it by substitution
+			f := vc.freshConst("hc", vs)
 			if t.cond != "" {
-				h = sto(h, t.key, ite(t.cond, sel(f, t.key), sel(h, t.key)))
+				h = sto(h, t.key, ite(t.cond, f, sel(h, t.key)))
 			} else {
-				h = sto(h, t.key, sel(f, t.key))
+				h = sto(h, t.key, f)
 			}
 			vc.heapMods[n] = append(vc.heapMods[n], heapMod{key: t.key, cond: t.cond, site: st.cond})
 		}
